@@ -394,7 +394,10 @@ def clientTerm (t : Term) : Conv WTerm :=
       op := r.wire
       invert := if r.invert == .copied then t.invert else false }
 
-def clientTransform (qs : Queries) : Conv (List WQuery) := Conv.mapM (Conv.mapM clientTerm) qs
+/-- the loop over `opts.LabelQueries` in client List / WatchKind / WatchKindAggregated: every query is transformed
+    and sent (`Gen.Selector.clientForwardsEveryQuery`; any other loop is outside the model) -/
+def clientTransform (qs : Queries) : Conv (List WQuery) :=
+  if Gen.Selector.clientForwardsEveryQuery then Conv.mapM (Conv.mapM clientTerm) qs else .unknown
 
 /-- one iteration of `ConvertLabelQuery` (server/helpers.go:22-49) followed by the
     constructor it calls (label_query.go:108-188). Go evaluates the arguments first, so
@@ -433,7 +436,10 @@ def serverTerm (w : WTerm) : Conv Term :=
           | _, _ => .unknown
         val.bind fun vs => inv.bind fun i => .ok { key := w.key, value := vs, op := op, invert := i }
 
-def serverConvert (ws : List WQuery) : Conv Queries := Conv.mapM (Conv.mapM serverTerm) ws
+/-- the loop over `req.GetOptions().GetLabelQuery()` in server List / Watch: every wire query is converted and handed
+    to the state (`Gen.Selector.serverForwardsEveryQuery`; any other loop is outside the model) -/
+def serverConvert (ws : List WQuery) : Conv Queries :=
+  if Gen.Selector.serverForwardsEveryQuery then Conv.mapM (Conv.mapM serverTerm) ws else .unknown
 
 /-- the label queries the remote state evaluates for a client-side `qs` -/
 def viaWire (qs : Queries) : Conv Queries := (clientTransform qs).bind serverConvert
